@@ -31,7 +31,7 @@ ASSUMPTIONS = ["reference: product of the closed-form window probabilities (refd
                "query SMILES are written with explicit [H] atoms kept (removeHs=False on the library side)",
                "tolerance 1e-7 absolute + 1e-6 relative; parameter regions keep P(T<0) < 1e-9"]
 
-SIZES = {"quick": 48, "thorough": 1000}
+SIZES = {"quick": 48, "thorough": 600}
 
 
 def plan(tier, seed):
